@@ -307,7 +307,10 @@ func (a String) M__iadd__(other Object) (Object, error) {
 }
 
 func (a String) M__mul__(other Object) (Object, error) {
-	if b, ok := convertToInt(other); ok {
+	if b, ok, err := sequenceRepeatCount(other); ok {
+		if err != nil {
+			return nil, err
+		}
 		if b < 0 {
 			b = 0
 		}
